@@ -71,6 +71,14 @@ Theorem C08_no_publish_permission_no_media : forall limits gated ops h,
   N.testbit (match aget s.(s_pubmedia) tok with Some m => m | None => 0 end) 1 = false.
 Proof. intros limits gated ops h R. exact (no_publish_permission_no_media h (reachable_intro limits gated ops h R)). Qed.
 
+(* A publisher is created only with the permission: an offer the permissions do not allow is
+   refused and nothing is created (a creation that was allowed when it started is checked again
+   when it completes: finish_create, and C09_completion_owned_or_closed). *)
+Theorem C08_offer_needs_permission : forall h c sid s i stream media,
+  offer_allowed s.(s_perms) stream media = false ->
+  do_media h c sid s (RSession i) 0 stream media = (h, [ToConn c (SError E_not_allowed)]).
+Proof. exact offer_needs_permission. Qed.
+
 (* The revocation (run after a permissions event and after a room reply that sets permissions) closes
    every publisher the permissions no longer allow, in any state ... *)
 Theorem C08_revocation_closes : forall h sid s stream tok,
@@ -122,3 +130,4 @@ Print Assumptions C08_no_publish_permission_no_media.
 Print Assumptions C08_revocation_closes.
 Print Assumptions C08_revocation_establishes.
 Print Assumptions C08_request_needs_same_call.
+Print Assumptions C08_offer_needs_permission.
